@@ -16,7 +16,7 @@ UNITS = [1000, 3500, 700, 13000, 250]   # ms per tick: also sizes that are not d
 def consts(kind, c, emit, prop=None):
     if kind == "session":
         kd = vlib.known_devs(prop) if prop else {}
-        return "T = %d MOO = %d AL = %d MaxTs = %d MaxEv = %d Keys = {\"a\",\"b\"} ChanCap = 100 DevMerge = %s DevStart = %s Emit = %s" % (
+        return "T = %d MOO = %d AL = %d MaxTs = %d MaxEv = %d Keys = {\"a\",\"b\"} ChanCap = 100 LateAnyKey = FALSE DevMerge = %s DevStart = %s Emit = %s" % (
             c["size"], c["moo"], c["al"], c["maxts"], c["maxev"], "TRUE" if "SessionMergeAcrossGap" in kd else "FALSE",
             "TRUE" if "SessionStartFirstArrival" in kd else "FALSE", "TRUE" if emit else "FALSE")
     s = "Size = %d MOO = %d AL = %d MaxTs = %d MaxEv = %d ChanCap = %d Reanchor = TRUE Emit = %s" % (
@@ -48,9 +48,7 @@ def generate(res, kind, c, timeout=900):
     r = vlib.tlc(SPEC, MODULE[kind], cfg, workers=1, timeout=timeout)
     if not r["ok"]:
         raise vlib.Inconclusive("scenario generation failed:\n" + r["out"][-2000:])
-    res.cov["states"] += r["distinct"]
-    res.cov["transitions"] += r["generated"]
-    return [json.loads(x[1]) for x in vlib.prints(r["out"], "SCEN")]
+    return [json.loads(x[1]) for x in vlib.prints(r["out"], "SCEN")], r["distinct"], r["generated"]
 
 
 def mkcfg(kind, c, rng):
@@ -83,7 +81,10 @@ def random_free(kind, c, rng, n):
 
 
 def run_family(prop, tier, plan, free_plan, assumptions, mc_extra=(), post=None):
+    import time
     res = vlib.Result(prop, tier)
+    tm = {}
+    t0 = time.time()
     rng = random.Random(vlib.seed())
     vh = vlib.build_vh()
     sc_path = os.path.join(vlib.scratch(), "scen.ndjson")
@@ -91,9 +92,18 @@ def run_family(prop, tier, plan, free_plan, assumptions, mc_extra=(), post=None)
     scen = {}
     n = 0
     sampled = False
+    from concurrent.futures import ThreadPoolExecutor
+    scratch0 = vlib.scratch()          # create the scratch dir before the threads start
+    with ThreadPoolExecutor(max_workers=6) as ex:      # one TLC (1 worker: deterministic print order) per configuration, side by side
+        futs = [ex.submit(generate, res, kind, c) for kind, c in plan]
+        gen = []
+        for f in futs:
+            steps_list, nd, ng = f.result()
+            res.cov["states"] += nd
+            res.cov["transitions"] += ng
+            gen.append(steps_list)
     with open(sc_path, "w") as f:
-        for kind, c in plan:
-            steps_list = generate(res, kind, c)
+        for (kind, c), steps_list in zip(plan, gen):
             cap = c.get("cap")
             if cap and len(steps_list) > cap:
                 steps_list = rng.sample(steps_list, cap)
@@ -126,9 +136,11 @@ def run_family(prop, tier, plan, free_plan, assumptions, mc_extra=(), post=None)
                 sc = {"tr": n, "cfg": cfg, "steps": steps, "free": True, "burst": True}
                 scen[n] = sc
                 f.write(json.dumps(sc) + "\n")
+    tm["generate"] = round(time.time() - t0, 1); t0 = time.time()
     rc, out = vlib.sh([vh, "win", "-scen", sc_path, "-out", tr_path, "-par", "16"], 1500)
     if rc != 0:
         raise vlib.Inconclusive("driver failed:\n" + out[-3000:])
+    tm["replay"] = round(time.time() - t0, 1); t0 = time.time()
     inc = [l for l in out.splitlines() if l.startswith("INCONCLUSIVE")]
     drift = [l for l in out.splitlines() if l.startswith("DRIFT")]
     if drift:
@@ -154,6 +166,8 @@ def run_family(prop, tier, plan, free_plan, assumptions, mc_extra=(), post=None)
                 continue
             seen.add(tr)
             res.violation("%s at trace line %d of scenario %d" % (code, line, tr), scen.get(tr))
+    tm["validate"] = round(time.time() - t0, 1); t0 = time.time()
+    res.cov["phase_seconds"] = tm
     res.cov["traces_validated_against_impl"] = n - len(inc)
     res.cov["evaluations"] = n
     res.cov["trace_events"] = nlines
